@@ -6,9 +6,17 @@ namespace Typedpy.Sched
 
 /-! ### single steps -/
 
+theorem Nm.eval_congr (n : Nm) (sh1 sh2 : Shared) (h : ∀ c ∈ n.cells, sh1 c = sh2 c) : n.eval sh1 = n.eval sh2 := by
+  cases n with
+  | const s => rfl
+  | cell c => exact h c (by simp [Nm.cells])
+  | cellSuf c suf =>
+    have := h c (by simp [Nm.cells])
+    simp only [Nm.eval, this]
+
 theorem Step.local_prog (s : Step) (sh : Shared) (rest : List Step) (t : TState) :
     (s.local sh rest t).prog = rest := by
-  cases s <;> simp only [Step.local] <;> split <;> rfl
+  cases s <;> simp only [Step.local] <;> first | rfl | (split <;> rfl)
 
 theorem Step.shared_of_not_writes {s : Step} (h : s.writesShared = false) (sh : Shared) :
     s.shared sh = sh := by
@@ -18,7 +26,7 @@ theorem Step.shared_of_not_writes {s : Step} (h : s.writesShared = false) (sh : 
 theorem Step.shared_frame (s : Step) (sh : Shared) (c : Nat) (hc : c ∉ s.writeCells) :
     s.shared sh c = sh c := by
   cases s with
-  | writeShared c' n =>
+  | write c' n =>
     simp only [Step.writeCells, List.mem_singleton] at hc
     simp [Step.shared, Shared.set, hc]
   | _ => rfl
@@ -27,20 +35,28 @@ theorem Step.shared_frame (s : Step) (sh : Shared) (c : Nat) (hc : c ∉ s.write
 theorem Step.local_congr (s : Step) (sh1 sh2 : Shared) (rest : List Step) (t : TState)
     (h : ∀ c ∈ s.readCells, sh1 c = sh2 c) : s.local sh1 rest t = s.local sh2 rest t := by
   cases s with
-  | storeTemp c v ok =>
-    have := h c (by simp [Step.readCells])
+  | store n v ok =>
+    have := Nm.eval_congr n sh1 sh2 (fun c hc => h c (by simpa [Step.readCells] using hc))
     simp only [Step.local, this]
-  | loadTemp c =>
-    have := h c (by simp [Step.readCells])
+  | load n =>
+    have := Nm.eval_congr n sh1 sh2 (fun c hc => h c (by simpa [Step.readCells] using hc))
+    simp only [Step.local, this]
+  | move a b =>
+    have ha := Nm.eval_congr a sh1 sh2 (fun c hc => h c (by simp [Step.readCells, hc]))
+    have hb := Nm.eval_congr b sh1 sh2 (fun c hc => h c (by simp [Step.readCells, hc]))
+    simp only [Step.local, ha, hb]
+  | check n ok =>
+    have := Nm.eval_congr n sh1 sh2 (fun c hc => h c (by simpa [Step.readCells] using hc))
     simp only [Step.local, this]
   | _ => rfl
 
-/-- a step performs the same write whatever the store it starts from -/
-theorem Step.shared_congr (s : Step) (sh1 sh2 : Shared) (c : Nat) (h : sh1 c = sh2 c) :
-    s.shared sh1 c = s.shared sh2 c := by
+/-- a step performs the same write from any two stores that agree on the cells it reads -/
+theorem Step.shared_congr (s : Step) (sh1 sh2 : Shared) (c : Nat) (h : sh1 c = sh2 c)
+    (hr : ∀ c' ∈ s.readCells, sh1 c' = sh2 c') : s.shared sh1 c = s.shared sh2 c := by
   cases s with
-  | writeShared c' n =>
-    simp only [Step.shared, Shared.set]
+  | write c' n =>
+    have := Nm.eval_congr n sh1 sh2 (fun c hc => hr c (by simpa [Step.readCells] using hc))
+    simp only [Step.shared, Shared.set, this]
     split <;> simp [h]
   | _ => exact h
 
@@ -111,13 +127,18 @@ theorem stepT_congr (sh1 sh2 : Shared) (t : TState) (h : ∀ c ∈ readCells t.p
     simp only [readCells, hp, List.flatMap_cons, List.mem_append]
     exact Or.inl hc
 
-theorem stepT_shared_congr (sh1 sh2 : Shared) (t : TState) (c : Nat) (h : sh1 c = sh2 c) :
-    (stepT sh1 t).1 c = (stepT sh2 t).1 c := by
+theorem stepT_shared_congr (sh1 sh2 : Shared) (t : TState) (c : Nat) (h : sh1 c = sh2 c)
+    (hr : ∀ c' ∈ readCells t.prog, sh1 c' = sh2 c') : (stepT sh1 t).1 c = (stepT sh2 t).1 c := by
   unfold stepT
   split
   · exact h
   · exact h
-  · exact Step.shared_congr _ _ _ _ h
+  · next s rest he hp =>
+    apply Step.shared_congr _ _ _ _ h
+    intro c' hc'
+    apply hr
+    simp only [readCells, hp, List.flatMap_cons, List.mem_append]
+    exact Or.inl hc'
 
 theorem writeCells_suffix (sh : Shared) (t : TState) : ∀ c ∈ writeCells (stepT sh t).2.prog, c ∈ writeCells t.prog := by
   obtain ⟨pre, h⟩ := stepT_prog_suffix sh t
@@ -315,7 +336,7 @@ theorem run_noninterference (R : List Nat) (i : Nat) (sched : List Nat) :
       have hag' : ∀ c ∈ R, (stepAt cfg j).shared c = (stepT sha t).1 c := by
         intro c hc
         rw [stepAt_some ht]
-        exact stepT_shared_congr _ _ _ _ (hag c hc)
+        exact stepT_shared_congr _ _ _ _ (hag c hc) (fun c' hc' => hag c' (hR c' hc'))
       have := ih (stepAt cfg j) (stepT sha t).2 (stepT sha t).1 hth hR' hav' hag'
       rw [List.count_cons_self, alone_succ]
       exact this
@@ -351,7 +372,7 @@ namespace Typedpy.Sched
 /-! ### no foreign values: whatever the schedule, a thread only ever holds values of its own program -/
 
 def Step.vals : Step → List Int
-  | .storeTemp _ v _ => [v]
+  | .store _ v _ => [v]
   | .emit v => [v]
   | _ => []
 
@@ -391,9 +412,24 @@ theorem stepT_ownOnly (V : List Int) (sh : Shared) (t : TState) (h : ownOnly V t
       simp only [progVals, hp, List.flatMap_cons, List.mem_append]
       exact Or.inl hv
     cases s with
-    | writeShared c n => exact ⟨h1, h2, hrest⟩
+    | write c n => exact ⟨h1, h2, hrest⟩
     | newTemp => exact ⟨by simp [Step.local], h2, hrest⟩
-    | storeTemp c v ok =>
+    | check n ok =>
+      simp only [Step.local]
+      split <;> exact ⟨h1, h2, hrest⟩
+    | move a b =>
+      simp only [Step.local]
+      split
+      · next v hv =>
+        refine ⟨?_, h2, hrest⟩
+        intro kv hkv
+        simp only [List.mem_cons] at hkv
+        rcases hkv with rfl | hkv
+        · obtain ⟨k', hk⟩ := lookup_mem hv
+          exact h1 (k', v) hk
+        · exact h1 kv hkv
+      · exact ⟨h1, h2, hrest⟩
+    | store c v ok =>
       simp only [Step.local]
       split
       · refine ⟨?_, h2, hrest⟩
@@ -403,7 +439,7 @@ theorem stepT_ownOnly (V : List Int) (sh : Shared) (t : TState) (h : ownOnly V t
         · exact hs v (by simp [Step.vals])
         · exact h1 kv hkv
       · exact ⟨h1, h2, hrest⟩
-    | loadTemp c =>
+    | load c =>
       simp only [Step.local]
       split
       · next v hv =>
@@ -445,156 +481,295 @@ namespace Typedpy.Sched
 
 /-! ### a call only touches the cells of its own declaration -/
 
+/-- every cell a step of `p` writes or reads satisfies `P` -/
+def cellsIn (P : Nat → Prop) (p : List Step) : Prop :=
+  ∀ s ∈ p, (∀ c ∈ s.writeCells, P c) ∧ (∀ c ∈ s.readCells, P c)
+
+theorem cellsIn_nil (P : Nat → Prop) : cellsIn P [] := fun _ h => nomatch h
+
+theorem cellsIn_cons {P : Nat → Prop} {s : Step} {p : List Step}
+    (hs : (∀ c ∈ s.writeCells, P c) ∧ (∀ c ∈ s.readCells, P c)) (hp : cellsIn P p) : cellsIn P (s :: p) := by
+  intro s' hs'
+  rcases List.mem_cons.mp hs' with rfl | h
+  · exact hs
+  · exact hp s' h
+
+theorem cellsIn_append {P : Nat → Prop} {p q : List Step} (hp : cellsIn P p) (hq : cellsIn P q) :
+    cellsIn P (p ++ q) := by
+  intro s hs
+  rcases List.mem_append.mp hs with h | h
+  · exact hp s h
+  · exact hq s h
+
+theorem cellsIn_spec {P : Nat → Prop} {p : List Step} (h : cellsIn P p) :
+    (∀ c ∈ writeCells p, P c) ∧ (∀ c ∈ readCells p, P c) := by
+  constructor
+  · intro c hc
+    simp only [writeCells, List.mem_flatMap] at hc
+    obtain ⟨s, hs, hcs⟩ := hc
+    exact (h s hs).1 c hcs
+  · intro c hc
+    simp only [readCells, List.mem_flatMap] at hc
+    obtain ⟨s, hs, hcs⟩ := hc
+    exact (h s hs).2 c hcs
+
+theorem step_write_const {P : Nat → Prop} {c : Nat} (n : String) (h : P c) :
+    (∀ x ∈ (Step.write c (.const n)).writeCells, P x) ∧ (∀ x ∈ (Step.write c (.const n)).readCells, P x) := by
+  simp [Step.writeCells, Step.readCells, Nm.cells, h]
+
+theorem step_store_cell {P : Nat → Prop} {c : Nat} (v : Int) (ok : Bool) (h : P c) :
+    (∀ x ∈ (Step.store (.cell c) v ok).writeCells, P x) ∧ (∀ x ∈ (Step.store (.cell c) v ok).readCells, P x) := by
+  simp [Step.writeCells, Step.readCells, Nm.cells, h]
+
+theorem step_load_cell {P : Nat → Prop} {c : Nat} (h : P c) :
+    (∀ x ∈ (Step.load (.cell c)).writeCells, P x) ∧ (∀ x ∈ (Step.load (.cell c)).readCells, P x) := by
+  simp [Step.writeCells, Step.readCells, Nm.cells, h]
+
+theorem step_check_cell {P : Nat → Prop} {c : Nat} (ok : Bool) (h : P c) :
+    (∀ x ∈ (Step.check (.cell c) ok).writeCells, P x) ∧ (∀ x ∈ (Step.check (.cell c) ok).readCells, P x) := by
+  simp [Step.writeCells, Step.readCells, Nm.cells, h]
+
+theorem step_private {P : Nat → Prop} {s : Step} (hw : s.writeCells = []) (hr : s.readCells = []) :
+    (∀ x ∈ s.writeCells, P x) ∧ (∀ x ∈ s.readCells, P x) := by
+  simp [hw, hr]
+
 theorem homogFrom_cells (cell : Nat) (name : String) : ∀ (es : List (Int × Bool)) (i : Nat),
-    (∀ c ∈ writeCells (progHomogFrom cell name i es), c = cell) ∧
-    (∀ c ∈ readCells (progHomogFrom cell name i es), c = cell) := by
+    cellsIn (· = cell) (progHomogFrom cell name i es) := by
   intro es
   induction es with
-  | nil => intro i; simp [progHomogFrom, writeCells, readCells]
+  | nil => intro i; exact cellsIn_nil _
   | cons e rest ih =>
     intro i
     obtain ⟨v, ok⟩ := e
-    have := ih (i + 1)
-    simp only [writeCells, readCells] at this ⊢
-    simp only [progHomogFrom, List.flatMap_cons, Step.writeCells, Step.readCells, List.mem_append, List.mem_singleton,
-      List.nil_append]
-    constructor
-    · intro c hc
-      rcases hc with hc | hc
-      · exact hc
-      · exact this.1 c hc
-    · intro c hc
-      rcases hc with hc | hc | hc
-      · exact hc
-      · exact hc
-      · exact this.2 c hc
+    exact cellsIn_cons (step_write_const _ rfl) (cellsIn_cons (step_store_cell _ _ rfl)
+      (cellsIn_cons (step_load_cell rfl) (ih (i + 1))))
 
-theorem setFrom_cells (cell : Nat) : ∀ (es : List (Int × Bool)),
-    (∀ c ∈ writeCells (progSetFrom cell es), c = cell) ∧ (∀ c ∈ readCells (progSetFrom cell es), c = cell) := by
+theorem setFrom_cells (cell : Nat) : ∀ (es : List (Int × Bool)), cellsIn (· = cell) (progSetFrom cell es) := by
   intro es
   induction es with
-  | nil => simp [progSetFrom, writeCells, readCells]
+  | nil => exact cellsIn_nil _
   | cons e rest ih =>
     obtain ⟨v, ok⟩ := e
-    simp only [writeCells, readCells] at ih ⊢
-    simp only [progSetFrom, List.flatMap_cons, Step.writeCells, Step.readCells, List.mem_append, List.mem_singleton,
-      List.nil_append]
-    constructor
-    · intro c hc
-      exact ih.1 c hc
-    · intro c hc
-      rcases hc with hc | hc | hc
-      · exact hc
-      · exact hc
-      · exact ih.2 c hc
+    exact cellsIn_cons (step_private rfl rfl) (cellsIn_cons (step_store_cell _ _ rfl)
+      (cellsIn_cons (step_load_cell rfl) ih))
 
 theorem mapFrom_cells (kc vc : Nat) : ∀ (es : List ((Int × Bool) × (Int × Bool))),
-    (∀ c ∈ writeCells (progMapFrom kc vc es), c = kc ∨ c = vc) ∧
-    (∀ c ∈ readCells (progMapFrom kc vc es), c = kc ∨ c = vc) := by
+    cellsIn (fun c => c = kc ∨ c = vc) (progMapFrom kc vc es) := by
   intro es
   induction es with
-  | nil => simp [progMapFrom, writeCells, readCells]
+  | nil => exact cellsIn_nil _
   | cons e rest ih =>
     obtain ⟨⟨k, kok⟩, ⟨v, vok⟩⟩ := e
-    simp only [writeCells, readCells] at ih ⊢
-    simp only [progMapFrom, List.flatMap_cons, Step.writeCells, Step.readCells, List.mem_append, List.mem_singleton,
-      List.nil_append]
-    constructor
-    · intro c hc
-      exact ih.1 c hc
-    · intro c hc
-      rcases hc with hc | hc | hc | hc | hc
-      · exact Or.inl hc
-      · exact Or.inr hc
-      · exact Or.inr hc
-      · exact Or.inl hc
-      · exact ih.2 c hc
+    exact cellsIn_cons (step_private rfl rfl) (cellsIn_cons (step_store_cell _ _ (Or.inl rfl))
+      (cellsIn_cons (step_store_cell _ _ (Or.inr rfl)) (cellsIn_cons (step_load_cell (Or.inr rfl))
+        (cellsIn_cons (step_load_cell (Or.inl rfl)) ih))))
 
 theorem posFrom_cells (base : Nat) (name : String) (n : Nat) : ∀ (es : List (Int × Bool)) (i : Nat),
-    (∀ c ∈ writeCells (progPosFrom base name n i es), base ≤ c ∧ c < base + n) ∧
-    (∀ c ∈ readCells (progPosFrom base name n i es), base ≤ c ∧ c < base + n) := by
+    cellsIn (fun c => base ≤ c ∧ c < base + n) (progPosFrom base name n i es) := by
   intro es
   induction es with
-  | nil => intro i; simp [progPosFrom, writeCells, readCells]
+  | nil => intro i; exact cellsIn_nil _
   | cons e rest ih =>
     intro i
     obtain ⟨v, ok⟩ := e
-    have := ih (i + 1)
-    simp only [writeCells, readCells] at this ⊢
     simp only [progPosFrom]
     split
     · next hlt =>
-      simp only [List.flatMap_cons, Step.writeCells, Step.readCells, List.mem_append, List.mem_singleton,
-        List.nil_append]
-      constructor
-      · intro c hc
-        rcases hc with hc | hc
-        · subst hc; omega
-        · exact this.1 c hc
-      · intro c hc
-        rcases hc with hc | hc | hc
-        · subst hc; omega
-        · subst hc; omega
-        · exact this.2 c hc
-    · simp only [List.flatMap_cons, Step.writeCells, Step.readCells, List.nil_append]
-      exact this
+      have hP : base ≤ base + i ∧ base + i < base + n := by omega
+      exact cellsIn_cons (step_write_const _ hP) (cellsIn_cons (step_store_cell _ _ hP)
+        (cellsIn_cons (step_load_cell hP) (ih (i + 1))))
+    · exact cellsIn_cons (step_private rfl rfl) (ih (i + 1))
 
-set_option linter.unusedSimpArgs false in
-/-- a call only writes and reads the cells of its own declaration -/
-theorem Call.prog_cells (call : Call) :
-    (∀ c ∈ writeCells call.prog, call.usesCell c = true) ∧ (∀ c ∈ readCells call.prog, call.usesCell c = true) := by
+theorem allOfFrom_cells (n : String) : ∀ (os : List (Nat × Bool)),
+    cellsIn (fun c => c ∈ os.map (·.1)) (progAllOfFrom (.const n) os) := by
+  intro os
+  induction os with
+  | nil => exact cellsIn_nil _
+  | cons o rest ih =>
+    obtain ⟨c, ok⟩ := o
+    have hP : c ∈ ((c, ok) :: rest).map (·.1) := by simp
+    have ih' : cellsIn (fun x => x ∈ ((c, ok) :: rest).map (·.1)) (progAllOfFrom (.const n) rest) :=
+      fun s hs => ⟨fun x hx => List.mem_cons_of_mem _ ((ih s hs).1 x hx), fun x hx => List.mem_cons_of_mem _ ((ih s hs).2 x hx)⟩
+    exact cellsIn_cons (step_write_const _ hP) (cellsIn_cons (step_check_cell _ hP) ih')
+
+theorem oneOfFrom_cells (n : String) : ∀ (os : List (Nat × Bool)),
+    cellsIn (fun c => c ∈ os.map (·.1)) (progOneOfFrom (.const n) os) := by
+  intro os
+  induction os with
+  | nil => exact cellsIn_nil _
+  | cons o rest ih =>
+    obtain ⟨c, ok⟩ := o
+    have hP : c ∈ ((c, ok) :: rest).map (·.1) := by simp
+    have ih' : cellsIn (fun x => x ∈ ((c, ok) :: rest).map (·.1)) (progOneOfFrom (.const n) rest) :=
+      fun s hs => ⟨fun x hx => List.mem_cons_of_mem _ ((ih s hs).1 x hx), fun x hx => List.mem_cons_of_mem _ ((ih s hs).2 x hx)⟩
+    exact cellsIn_cons (step_write_const _ hP) (cellsIn_cons (step_check_cell _ hP) ih')
+
+theorem cellsIn_const_tail (P : Nat → Prop) (n : String) (v : Int) :
+    cellsIn P [.store (.const n) v true, .load (.const n)] :=
+  cellsIn_cons (step_private rfl rfl) (cellsIn_cons (step_private rfl rfl) (cellsIn_nil _))
+
+theorem cellsIn_const_fail (P : Nat → Prop) (n : String) : cellsIn P [.check (.const n) false] :=
+  cellsIn_cons (step_private rfl rfl) (cellsIn_nil _)
+
+theorem anyOf_cells (n : String) (v : Int) : ∀ (os : List (Nat × Bool)),
+    cellsIn (fun c => c ∈ os.map (·.1)) (progAnyOf (.const n) v os) := by
+  intro os
+  induction os with
+  | nil => exact cellsIn_const_fail _ _
+  | cons o rest ih =>
+    obtain ⟨c, ok⟩ := o
+    have hP : c ∈ ((c, ok) :: rest).map (·.1) := by simp
+    have ih' : cellsIn (fun x => x ∈ ((c, ok) :: rest).map (·.1)) (progAnyOf (.const n) v rest) :=
+      fun s hs => ⟨fun x hx => List.mem_cons_of_mem _ ((ih s hs).1 x hx), fun x hx => List.mem_cons_of_mem _ ((ih s hs).2 x hx)⟩
+    simp only [progAnyOf]
+    refine cellsIn_cons (step_write_const _ hP) (cellsIn_cons (step_check_cell _ hP) ?_)
+    cases ok with
+    | true =>
+      exact cellsIn_cons (step_store_cell _ _ hP) (cellsIn_cons (step_private rfl rfl)
+        (cellsIn_cons (step_private rfl rfl) (cellsIn_nil _)))
+    | false => exact ih'
+
+theorem notField_cells (n : String) (v : Int) : ∀ (os : List (Nat × Bool)),
+    cellsIn (fun c => c ∈ os.map (·.1)) (progNotField (.const n) v os) := by
+  intro os
+  induction os with
+  | nil => exact cellsIn_const_tail _ _ _
+  | cons o rest ih =>
+    obtain ⟨c, ok⟩ := o
+    have hP : c ∈ ((c, ok) :: rest).map (·.1) := by simp
+    have ih' : cellsIn (fun x => x ∈ ((c, ok) :: rest).map (·.1)) (progNotField (.const n) v rest) :=
+      fun s hs => ⟨fun x hx => List.mem_cons_of_mem _ ((ih s hs).1 x hx), fun x hx => List.mem_cons_of_mem _ ((ih s hs).2 x hx)⟩
+    simp only [progNotField]
+    refine cellsIn_cons (step_write_const _ hP) (cellsIn_cons (step_check_cell _ hP) ?_)
+    cases ok with
+    | true => exact cellsIn_const_fail _ _
+    | false => exact ih'
+
+theorem cellsIn_mono {P Q : Nat → Prop} {p : List Step} (h : ∀ c, P c → Q c) (hp : cellsIn P p) : cellsIn Q p :=
+  fun s hs => ⟨fun c hc => h c ((hp s hs).1 c hc), fun c hc => h c ((hp s hs).2 c hc)⟩
+
+theorem Call.prog_cellsIn (call : Call) : cellsIn (fun c => call.usesCell c = true) call.prog := by
   cases call with
   | homog cell name w es =>
-    have := homogFrom_cells cell name es 0
-    simp only [writeCells, readCells] at this
-    simp only [Call.prog, progHomog, Call.usesCell, writeCells, readCells, beq_iff_eq]
-    constructor
-    · intro c hc
-      cases w <;>
-        simp only [List.flatMap_append, List.flatMap_cons, List.flatMap_nil, Step.writeCells, List.mem_append,
-          List.mem_singleton, List.nil_append, List.append_nil, List.not_mem_nil, false_or, ite_true,
-          Bool.false_eq_true, ite_false, if_true, if_false] at hc
-      · exact this.1 c hc
-      · rcases hc with hc | hc
-        · exact hc
-        · exact this.1 c hc
-    · intro c hc
-      cases w <;>
-        simp only [List.flatMap_append, List.flatMap_cons, List.flatMap_nil, Step.readCells, List.mem_append,
-          List.mem_singleton, List.nil_append, List.append_nil, List.not_mem_nil, false_or, ite_true,
-          Bool.false_eq_true, ite_false, if_true, if_false] at hc
-      · exact this.2 c hc
-      · exact this.2 c hc
+    have h := cellsIn_mono (Q := fun c => (Call.homog cell name w es).usesCell c = true)
+      (fun c (hc : c = cell) => by simp [Call.usesCell, hc]) (homogFrom_cells cell name es 0)
+    simp only [Call.prog, progHomog]
+    apply cellsIn_append
+    · cases w
+      · exact cellsIn_nil _
+      · exact cellsIn_cons (step_write_const _ (by simp [Call.usesCell])) (cellsIn_nil _)
+    · exact cellsIn_cons (step_private rfl rfl) h
   | set cell name es =>
-    have := setFrom_cells cell es
-    simp only [writeCells, readCells] at this
-    simp only [Call.prog, progSet, Call.usesCell, writeCells, readCells, beq_iff_eq, List.flatMap_cons,
-      Step.writeCells, Step.readCells, List.mem_append, List.mem_singleton, List.nil_append]
-    constructor
-    · intro c hc
-      rcases hc with hc | hc
-      · exact hc
-      · exact this.1 c hc
-    · intro c hc
-      exact this.2 c hc
+    have h := cellsIn_mono (Q := fun c => (Call.set cell name es).usesCell c = true)
+      (fun c (hc : c = cell) => by simp [Call.usesCell, hc]) (setFrom_cells cell es)
+    exact cellsIn_cons (step_write_const _ (by simp [Call.usesCell])) h
+  | iset cell name es =>
+    have h := cellsIn_mono (Q := fun c => (Call.iset cell name es).usesCell c = true)
+      (fun c (hc : c = cell) => by simp [Call.usesCell, hc]) (setFrom_cells cell es)
+    exact cellsIn_cons (step_private rfl rfl) (cellsIn_append
+      (cellsIn_cons (step_write_const _ (by simp [Call.usesCell])) h)
+      (cellsIn_cons (step_write_const _ (by simp [Call.usesCell])) h))
   | map kc vc name es =>
-    have := mapFrom_cells kc vc es
-    simp only [writeCells, readCells] at this
-    simp only [Call.prog, progMap, Call.usesCell, writeCells, readCells, Bool.or_eq_true, beq_iff_eq, List.flatMap_cons,
-      Step.writeCells, Step.readCells, List.mem_append, List.mem_singleton, List.nil_append]
-    constructor
-    · intro c hc
-      rcases hc with hc | hc | hc
-      · exact Or.inl hc
-      · exact Or.inr hc
-      · exact this.1 c hc
-    · intro c hc
-      exact this.2 c hc
+    have h := cellsIn_mono (Q := fun c => (Call.map kc vc name es).usesCell c = true)
+      (fun c (hc : c = kc ∨ c = vc) => by simpa [Call.usesCell] using hc) (mapFrom_cells kc vc es)
+    exact cellsIn_cons (step_write_const _ (by simp [Call.usesCell]))
+      (cellsIn_cons (step_write_const _ (by simp [Call.usesCell])) h)
   | pos base name n es =>
-    have := posFrom_cells base name n es 0
-    simp only [writeCells, readCells] at this
-    simp only [Call.prog, progPos, Call.usesCell, writeCells, readCells, Bool.and_eq_true, decide_eq_true_eq,
-      List.flatMap_cons, Step.writeCells, Step.readCells, List.nil_append]
-    exact this
+    have h := cellsIn_mono (Q := fun c => (Call.pos base name n es).usesCell c = true)
+      (fun c (hc : base ≤ c ∧ c < base + n) => by simpa [Call.usesCell] using hc) (posFrom_cells base name n es 0)
+    exact cellsIn_cons (step_private rfl rfl) h
+  | wrap kind name v os =>
+    have hQ : ∀ c, c ∈ os.map (·.1) → (Call.wrap kind name v os).usesCell c = true := by
+      intro c hc
+      simpa [Call.usesCell] using hc
+    cases kind with
+    | allOf =>
+      exact cellsIn_append (cellsIn_mono hQ (allOfFrom_cells name os)) (cellsIn_const_tail _ _ _)
+    | anyOf => exact cellsIn_mono hQ (anyOf_cells name v os)
+    | oneOf =>
+      simp only [Call.prog, progOneOf]
+      apply cellsIn_append (cellsIn_mono hQ (oneOfFrom_cells name os))
+      split
+      · exact cellsIn_const_tail _ _ _
+      · exact cellsIn_const_fail _ _
+    | notField => exact cellsIn_mono hQ (notField_cells name v os)
+
+/-- a call only writes and reads the cells of its own declaration -/
+theorem Call.prog_cells (call : Call) :
+    (∀ c ∈ writeCells call.prog, call.usesCell c = true) ∧ (∀ c ∈ readCells call.prog, call.usesCell c = true) :=
+  cellsIn_spec (Call.prog_cellsIn call)
+
+end Typedpy.Sched
+
+namespace Typedpy.Sched
+
+/-! ### private copies: renaming the cells of every program apart -/
+
+theorem Nm.rename_cells (f : Nat → Nat) (n : Nm) : (n.rename f).cells = n.cells.map f := by
+  cases n <;> rfl
+
+theorem Step.rename_writeCells (f : Nat → Nat) (s : Step) : (s.rename f).writeCells = s.writeCells.map f := by
+  cases s <;> rfl
+
+theorem Step.rename_readCells (f : Nat → Nat) (s : Step) : (s.rename f).readCells = s.readCells.map f := by
+  cases s <;> simp [Step.rename, Step.readCells, Nm.rename_cells]
+
+theorem writeCells_rename (f : Nat → Nat) (p : List Step) : ∀ c ∈ writeCells (renameProg f p), ∃ c0, c = f c0 := by
+  intro c hc
+  simp only [writeCells, renameProg, List.mem_flatMap, List.mem_map] at hc
+  obtain ⟨s', ⟨s, _, rfl⟩, hcs⟩ := hc
+  rw [Step.rename_writeCells, List.mem_map] at hcs
+  obtain ⟨c0, _, rfl⟩ := hcs
+  exact ⟨c0, rfl⟩
+
+theorem readCells_rename (f : Nat → Nat) (p : List Step) : ∀ c ∈ readCells (renameProg f p), ∃ c0, c = f c0 := by
+  intro c hc
+  simp only [readCells, renameProg, List.mem_flatMap, List.mem_map] at hc
+  obtain ⟨s', ⟨s, _, rfl⟩, hcs⟩ := hc
+  rw [Step.rename_readCells, List.mem_map] at hcs
+  obtain ⟨c0, _, rfl⟩ := hcs
+  exact ⟨c0, rfl⟩
+
+theorem instFrom_get (priv : Nat → Bool) (N : Nat) : ∀ (progs : List (List Step)) (k i : Nat),
+    (instFrom priv N k progs)[i]? = (progs[i]?).map (renameProg (cellMap priv N (k + i))) := by
+  intro progs
+  induction progs with
+  | nil => intro k i; simp [instFrom]
+  | cons p rest ih =>
+    intro k i
+    cases i with
+    | zero => simp [instFrom]
+    | succ i =>
+      simp only [instFrom, List.getElem?_cons_succ]
+      rw [ih (k + 1) i]
+      have : k + 1 + i = k + (i + 1) := by omega
+      rw [this]
+
+theorem instFrom_length (priv : Nat → Bool) (N : Nat) : ∀ (progs : List (List Step)) (k : Nat),
+    (instFrom priv N k progs).length = progs.length := by
+  intro progs
+  induction progs with
+  | nil => intro k; rfl
+  | cons p rest ih => intro k; simp [instFrom, ih]
+
+/-- private copies made for different programs are different cells -/
+theorem privCell_thread {N i j c c' : Nat} (hi : i < N) (hj : j < N) (h : privCell N i c = privCell N j c') : i = j := by
+  unfold privCell at h
+  have h1 : c * N + i = c' * N + j := by omega
+  have h2 : (c * N + i) % N = (c' * N + j) % N := by rw [h1]
+  rw [Nat.mul_add_mod_self_right, Nat.mul_add_mod_self_right, Nat.mod_eq_of_lt hi, Nat.mod_eq_of_lt hj] at h2
+  exact h2
+
+/-- a private copy is never a shared cell -/
+theorem privCell_ne_shared (N i c c' : Nat) : privCell N i c ≠ sharedCell c' := by
+  unfold privCell sharedCell
+  omega
+
+/-- renaming with an injective map can be undone: instantiated programs with all cells shared behave like the originals
+    (used by `decide` examples only through evaluation) -/
+theorem instFrom_congr (priv priv' : Nat → Bool) (h : ∀ c, priv c = priv' c) (N : Nat) (progs : List (List Step)) (k : Nat) :
+    instFrom priv N k progs = instFrom priv' N k progs := by
+  have : priv = priv' := funext h
+  rw [this]
 
 end Typedpy.Sched
